@@ -295,7 +295,9 @@ def gen_hier_schema(rng):
             elif callable_variants(schema, c, [d for d in L.descendants(schema, c) if classes[d].get("tag")]):
                 classes[c]["disc"] = "field"
     r = rng.random()
-    if r < 0.3 and callable_variants(schema, 1, L.disc_variants(schema, 1, True, False)):
+    if r < 0.12 and callable_variants(schema, 1, L.disc_variants(schema, 1, True, False, True)):
+        classes[1]["disc"], classes[1]["tag"], classes[1]["tagger"] = "field", False, True     # variant_tagger_fn
+    elif r < 0.3 and callable_variants(schema, 1, L.disc_variants(schema, 1, True, False)):
         classes[1]["disc"], classes[1]["tag"] = "field", False
     elif r < 0.42 and kind in NO_FORMAT_METHOD:
         classes[1]["disc"], classes[1]["tag"] = "nofield", False
@@ -410,7 +412,8 @@ def gen_value(rng, schema, t, depth, uid, toml, maxd=4):
     if t[0] == "disc":
         c = rng.choice(callable_variants(schema, c, L.disc_variants(schema, c, t[2], t[3])))
     elif schema["classes"][c].get("disc"):
-        c = rng.choice(callable_variants(schema, c, L.disc_variants(schema, c, schema["classes"][c]["disc"] != "nofield", False)))
+        c = rng.choice(callable_variants(schema, c, L.disc_variants(schema, c, schema["classes"][c]["disc"] != "nofield", False,
+                                                                    bool(schema["classes"][c].get("tagger")))))
     elif rng.random() < 0.12:
         ds = substitutable(schema, c)      # an instance of a subclass where the parent is declared
         if ds:
@@ -722,6 +725,7 @@ def run(ctx: vlib.Ctx):
             for x in schema["names"].values())))
         ctx.hist("schema_features", "config-discriminator with field", int(any(k.get("disc") in ("field", True) for k in schema["classes"])))
         ctx.hist("schema_features", "config-discriminator without field", int(any(k.get("disc") == "nofield" for k in schema["classes"])))
+        ctx.hist("schema_features", "variant_tagger_fn", int(any(k.get("tagger") for k in schema["classes"])))
         ctx.hist("schema_features", "nested class-level discriminator", int(any(k.get("disc") and k["parent"] is not None for k in schema["classes"])))
         ctx.hist("schema_features", "Annotated discriminator", int(any("disc" in json.dumps(x["ty"]) for x in schema["names"].values())))
         ctx.hist("schema_features", "typing.Self recursion", int(any(x.get("self") for x in schema["names"].values())))
